@@ -347,9 +347,11 @@ class FixedArray
                 boost::python::throw_error_already_set();
             }
             // e can be -1 if the iteration is backwards with a negative slice operator [::-n] (n > 0).
-            if (s < 0 || e < -1 || sl < 0) {
+            // An empty selection with a negative step legitimately reports s == -1; its indices are never used.
+            if (sl != 0 && (s < 0 || e < -1 || sl < 0)) {
                 throw std::domain_error("Slice extraction produced invalid start, end, or length indices");
             }
+            if (sl == 0) s = e = 0;
             start = s;
             end = e;
             slicelength = sl;
